@@ -55,6 +55,12 @@ def run(ctx):
     # an empty source (Darr array or sequence) keeps its dtype and trailing shape: shared with C15
     from .C15 import chunk_generator_rules
     chunk_generator_rules(ctx, 'D3', 'D3')
+    # seen identically through a freshly opened handle: the opener's two branches (memmap / empty-array substitute)
+    # use the stored dtype, byte order included (shared with C02/C03/C04/C18)
+    from ._shared import opener_branch_agreement, memoised_results_not_mutated
+    opener_branch_agreement(ctx, 'D5')
+    # chunklen- and history-independence: no memoised helper result is advanced in place
+    memoised_results_not_mutated(ctx, 'D6')
     # D1
     GA = GateAnalysis(ctx, PredGate('supported-type gate', is_type_gate, {'TypeError'}))
     sites = GA.gated_sites(f, _mut_site)
